@@ -19,6 +19,9 @@ import (
 //	anything else         ""
 func CalleeFull(c *ssa.CallCommon) string {
 	if c.IsInvoke() {
+		if f := devirtInvoke(c); f != nil {
+			return FuncFull(f)
+		}
 		return "iface:(" + types.TypeString(c.Value.Type(), nil) + ")." + c.Method.Name()
 	}
 	if f := StaticCallee(c); f != nil {
@@ -33,7 +36,7 @@ func CalleeFull(c *ssa.CallCommon) string {
 // StaticCallee resolves the function a call statically invokes, looking through bound-method closures.
 func StaticCallee(c *ssa.CallCommon) *ssa.Function {
 	if c.IsInvoke() {
-		return nil
+		return devirtInvoke(c)
 	}
 	switch v := c.Value.(type) {
 	case *ssa.Function:
@@ -42,6 +45,8 @@ func StaticCallee(c *ssa.CallCommon) *ssa.Function {
 		if f, ok := v.Fn.(*ssa.Function); ok {
 			return f
 		}
+	default:
+		return fieldFuncOf(c.Value)
 	}
 	return nil
 }
@@ -219,7 +224,11 @@ func NamedTypeOf(t types.Type) string {
 		if n.Obj().Pkg() == nil {
 			return n.Obj().Name()
 		}
-		return n.Obj().Pkg().Path() + "." + n.Obj().Name()
+		full := n.Obj().Pkg().Path() + "." + n.Obj().Name()
+		if o, ok := typeRenamed[full]; ok {
+			return o
+		}
+		return full
 	}
 	return ""
 }
